@@ -207,3 +207,32 @@ def cursor_scoped(model, rep, rule, rel, cname, mname='visit'):
               line=fi.node.lineno,
               witness='while any(map(lambda t: t > 0, pending)): pending = ...')
   return n
+
+
+
+def visit_arg_conditions(model):
+  """The conditions under which ActivityAnalyzer.visit_arg records a parameter
+  as bound / marks it as parameter, as formulas over ANNOT (the
+  annotations-only pass is running) and HASQN (the node has a qualified name).
+  -> (FuncInfo, {'bound': F or None, 'param': F or None, 'n_bound': int})"""
+  from sa import formula
+  va = model.func('malt/pyct/static_analysis/activity.py', 'ActivityAnalyzer.visit_arg')
+  p0 = va.params()[0]
+
+  def at(e):
+    t = core.norm(e)
+    if t == 'self._track_annotations_only':
+      return 'ANNOT'
+    if t.startswith('anno.hasanno(%s, anno.Basic.QN' % p0):
+      return 'HASQN'
+    return None
+  out = {'bound': None, 'param': None, 'n_bound': 0}
+  for c in ast.walk(va.node):
+    if isinstance(c, ast.Call):
+      f = core.norm(c.func)
+      if f == 'self.scope.bound.add':
+        out['n_bound'] += 1
+        out['bound'] = formula.condition_formula(va.node, c, at)
+      elif f == 'self.scope.mark_param':
+        out['param'] = formula.condition_formula(va.node, c, at)
+  return va, out
